@@ -160,3 +160,48 @@ Proof.
     rewrite Hrem. reflexivity.
   - cbn [apply_specified]. apply IH; assumption.
 Qed.
+
+(* a tts:ruby value that is not one of the six keywords: the span is read as a plain span, exactly as without the attribute *)
+Definition ruby_keyword (v : text) : bool :=
+  text_eqb v V_container || text_eqb v V_base || text_eqb v V_text || text_eqb v V_delimiter || text_eqb v V_baseContainer || text_eqb v V_textContainer.
+
+Theorem bad_ruby_ignored ev pc tag attrs txt tail cs v :
+  get_attr attrs A_ruby = Some v -> ruby_keyword v = false ->
+  (forall w, e_to_model ev A_ruby w = None) ->
+  process ev pc (X tag attrs txt tail cs) = process ev pc (X tag (remove_attr attrs A_ruby) txt tail cs).
+Proof.
+  intros Hg Hk Hns. unfold ruby_keyword in Hk.
+  repeat (apply orb_false_iff in Hk as [Hk ?]).
+  apply process_same_lookups; try other.
+  - unfold classify. rewrite get_remove_same, Hg, Hk, H, H0, H1, H2, H3. reflexivity.
+  - intro p. unfold read_lang. rewrite get_remove_other by reflexivity. reflexivity.
+  - intro p. unfold read_space. rewrite get_remove_other by reflexivity. reflexivity.
+  - intro k. unfold read_region. rewrite get_remove_other by reflexivity. reflexivity.
+  - unfold read_par. rewrite get_remove_other by reflexivity. reflexivity.
+  - unfold style_refs. rewrite get_remove_other by reflexivity. reflexivity.
+  - rewrite get_remove_other by reflexivity. reflexivity.
+  - rewrite get_remove_other by reflexivity. reflexivity.
+  - rewrite get_remove_other by reflexivity. reflexivity.
+  - intro d. apply apply_specified_remove. exact Hns.
+  - apply first_animated_remove. exact Hns.
+Qed.
+
+(* a value that the model rejects in the dictionary of a referenced or nested <style> is skipped: the element is styled exactly as if
+   the style did not carry it *)
+Theorem invalid_style_value_ignored vl s1 k x s2 : vl k x = false ->
+  forall d, merge_absent vl (s1 ++ (k, x) :: s2) d = merge_absent vl (s1 ++ s2) d.
+Proof.
+  intro Hv. induction s1 as [|[k1 x1] s1 IH]; intro d; cbn [app merge_absent].
+  - rewrite Hv. destruct (dict_has d k); reflexivity.
+  - destruct (dict_has d k1); [apply IH|]. destruct (vl k1 x1); apply IH.
+Qed.
+
+(* the dictionary of a <style> element is built like specified styling: an attribute whose value is rejected (by the parser or by the
+   model) is skipped there too, so that it cannot shadow what the style inherits through chained references *)
+Lemma collect_is_specified tm vl attrs : forall d, collect tm vl attrs d = apply_specified tm vl attrs d.
+Proof. induction attrs as [|[q v] a IH]; intro d; [reflexivity|]. cbn [collect apply_specified]. apply IH. Qed.
+
+Theorem bad_attr_in_style_element_ignored tm vl attrs a v :
+  get_attr attrs a = Some v -> (tm a v = None \/ exists p x, tm a v = Some (p, x) /\ vl p x = false) ->
+  forall d, NoDup (List.map fst attrs) -> collect tm vl attrs d = collect tm vl (remove_attr attrs a) d.
+Proof. intros Hg Hb d Hn. rewrite !collect_is_specified. apply (bad_style_attr_ignored tm vl attrs a v Hg Hb d Hn). Qed.
